@@ -376,8 +376,12 @@ class Interp:
                 return
             if op in ("Eq", "Ne", "Lt", "Le", "Gt", "Ge"):
                 res = _decide(op, alo, ahi, blo, bhi)
-                cs = self.new_sym(("cmp", at), 0, 1, prov, ("cmp", op, asid, bsid, (alo, ahi), (blo, bhi)), "bool")
+                vk = self.value_key(op, rv["a"], rv["b"], asid, bsid)
+                cs = self.new_sym(("gvn",) + vk if vk else ("cmp", at), 0, 1, prov, ("cmp", op, asid, bsid, (alo, ahi), (blo, bhi)), "bool")
+                prev = st.iv.get(cs) if vk else None
                 st.iv[cs] = (res, res) if res is not None else (0, 1)
+                if prev is not None and prev[0] == prev[1] and res is None:
+                    st.iv[cs] = prev          # same pure expression already decided on this path
                 # relational knowledge may decide it
                 if res is None and asid is not None and bsid is not None:
                     r2 = self.decide_rel(st, op, asid, bsid)
@@ -396,9 +400,15 @@ class Interp:
             else:
                 lo, hi = self.clip(lo, hi, rty)
             defn = ("bin", base, asid, bsid, (alo, ahi), (blo, bhi))
-            ns = self.new_sym(("bin", at), lo, hi, prov, defn, rty)
+            vk = self.value_key(base, rv["a"], rv["b"], asid, bsid)
+            ns = self.new_sym(("gvn",) + vk if vk else ("bin", at), lo, hi, prov, defn, rty)
+            prev = st.iv.get(ns) if vk else None
             self.kill(st, key)
             if lo is not None:
+                if prev is not None and prev[0] is not None:
+                    lo, hi = max(lo, prev[0]), min(hi, prev[1])
+                    if lo > hi:
+                        lo, hi = prev
                 st.iv[ns] = (lo, hi)
                 st.cells[key] = ns
                 # relational: x / c <= x ; x & m <= x ; x >> k <= x ; x % m < m
@@ -528,6 +538,22 @@ class Interp:
             st.cells[key] = ns
             st.iv[ns] = (lo, hi)
 
+    def value_key(self, op, a_op, b_op, asid, bsid):
+        """identity of a pure binary expression by the identity of its operands (global value numbering): two
+        evaluations of `flags & 0x100` on one path are the same symbol, so a refinement of the first is seen by the second"""
+        def ident(o, sid):
+            if sid is not None:
+                return ("s", sid)
+            c = o.get("const")
+            if c is not None and c.get("val") is not None:
+                return ("c", c.get("ty"), str(c["val"]))
+            return None
+        a = ident(a_op, asid)
+        b = ident(b_op, bsid)
+        if a is None or b is None:
+            return None
+        return (op, a, b)
+
     # ---- relations ---------------------------------------------------------------------
     def rel_le(self, st, a, b, depth=0):
         """a <= b by recorded relations (transitive, bounded depth)"""
@@ -630,7 +656,7 @@ class Interp:
 
     def note_ub(self, st, a, b):
         """a <= b was established: remember what b is computed from"""
-        pb = self.syms[b].prov | st.ub.get(b, frozenset())
+        pb = st.ub.get(b) or self.syms[b].prov
         old = st.ub.get(a)
         if old is None or not _size_derived(old):
             st.ub[a] = pb
@@ -717,12 +743,15 @@ class Interp:
                     _, base, a, b2, alo, ahi, blo, bhi = m
                     if base == "Sub" and a is not None and blo is not None and blo >= 0:
                         st.rel.add((vs, "<=", a))
+                        self.note_ub(st, vs, a)
                         if b2 is not None:
                             # a - b >= 0  =>  b <= a   (unsigned)
                             if rng and rng[0] == 0:
                                 st.rel.add((b2, "<=", a))
                     if base == "Add" and a is not None and blo is not None and blo >= 0:
                         st.rel.add((a, "<=", vs))
+                    if base == "Add" and b2 is not None and alo is not None and alo >= 0:
+                        st.rel.add((b2, "<=", vs))
             return True
         return True
 
@@ -1189,6 +1218,7 @@ class Interp:
                     ns = self.set_dest(st, dest, ("as Some", ".0"), lo, hi, vals[0][3] | vals[1][3], at, ("bin", base, vals[0][0], vals[1][0], (vals[0][1], vals[0][2]), (vals[1][1], vals[1][2])), ity)
                     if base == "Sub" and vals[0][0] is not None and rng[0] == 0:
                         st.rel.add((ns, "<=", vals[0][0]))
+                        self.note_ub(st, ns, vals[0][0])
                         if vals[1][0] is not None:
                             st.facts.add(("some_rel", dest, (vals[1][0], "<=", vals[0][0])))
                     if base == "Add" and vals[0][0] is not None and vals[1][1] is not None and vals[1][1] >= 0:
